@@ -90,3 +90,11 @@ META["C15"] = dict(
     text="Theorems C15_kept, C15_defaults, C15_suffix: for every accepted config the plan holds, in file order, exactly the stages with stage-start + cumulative duration after now (all when no stage-start; a suffix for non-negative durations), the total is the sum of all stage durations, limits map one-to-one, and a stage is parsed from the field-wise merge of its own and the default section. Run-time sequencing and environment set/unset are observed on real runs (predicate c15_run_ok), not proved.",
     note="Trusted: Coq kernel; YAML decoding not modelled; the run-time half (sequential stages, env present during / absent after) is exploration-level evidence inside this check; extraction + driver; harness.",
 )
+
+META["C19"] = dict(
+    design_ref="DESIGN.md section 5, C19",
+    technique="Coq proofs: decimal print/parse round-trip (induction on digits), marker-search lemmas (bytes of durations/numbers are below the markers' lead byte) giving read_progress(render_progress d) = counts for all data, banner = verdict by construction of the render function; byte-exact differential of Render() in both colour modes and field-exact comparison of Log() against the extracted model, plus the Result.Summary()/Progress() glue",
+    text="Theorems C19_decimal_roundtrip, C19_progress_roundtrip, C19_banner, C19_log_counts: for all counts below 2^64 and all durations/periods/statistics the progress line, read back, states exactly (successful, dropped when non-zero, failed); every count is printed by an exactly invertible decimal printer; the summary banner is the verdict flag; the structured group carries the same counts. "
+         "That the model's bytes are the templates' bytes (both colour modes), and that rendering never panics (zero iterations, zero and negative durations, odd error texts), is established by exact comparison on generated data. The percentage's closeness to the exact share is a binary64 rounding fact and is not proved.",
+    note="Trusted: Coq kernel (+ Flocq-carried axioms where rate/percent floats appear); text/template + fmt behaviour re-implemented and compared; extraction + driver; harness. The result-summary counterpart of the round-trip is checked by comparison, not proved.",
+)
